@@ -45,6 +45,12 @@ struct Case {
     pending_every: u64,
     fault: Option<Fault>,
     use_new_sink: bool,
+    /// fault-free cases: every writer keeps its sink alive until the reader has delivered all the
+    /// (non-empty) batches that writer pushed - "the reader is always woken when data becomes
+    /// available", not only when the last writer goes away. Single-writer cases only: with several
+    /// live writers a batch can sit in a second open file behind an unfinished first one (files are
+    /// read in order), which delays delivery until a writer rotates or drops - by design, no lost wake-up
+    hold_writers: bool,
 }
 
 fn parse(v: &Value) -> Option<Case> {
@@ -70,6 +76,7 @@ fn parse(v: &Value) -> Option<Case> {
             torn: f.get("torn")?.as_bool()?,
         }),
     };
+    let single_writer = writers.len() == 1;
     Some(Case {
         mpsc,
         rotate_after: v.get("rotate_after")?.as_u64()?,
@@ -81,6 +88,7 @@ fn parse(v: &Value) -> Option<Case> {
         },
         read_chunk: v.get("read_chunk")?.as_u64()? as usize,
         pending_every: v.get("pending_every")?.as_u64()?,
+        hold_writers: v.get("hold_writers").and_then(|x| x.as_bool()).unwrap_or(false) && fault.is_none() && single_writer,
         fault,
         use_new_sink: v.get("use_new_sink")?.as_bool()?,
     })
@@ -156,6 +164,7 @@ impl Scenario for SpillChannel {
             "pending_every": *rng.pick(&[0u64, 0, 1, 2]),
             "fault": fault,
             "use_new_sink": rng.chance(1, 2),
+            "hold_writers": !self.faults && rng.chance(1, 2),
         })
     }
     fn body(&self, case: &Value) -> Option<Body> {
@@ -220,13 +229,19 @@ fn run(c: &Case) {
     let mut ws: Vec<W> = sinks.into_iter().map(W::Sink).collect();
     ws.extend(writer_handles.into_iter().map(W::Writer));
 
+    // delivered batch ids + "the reader has stopped", for writers that hold their sink
+    let delivered: Arc<(shuttle::sync::Mutex<(std::collections::BTreeSet<u64>, bool)>, shuttle::sync::Condvar)> =
+        Arc::new((shuttle::sync::Mutex::new((Default::default(), false)), shuttle::sync::Condvar::new()));
+    let hold = c.hold_writers;
     let mut threads = vec![];
     let mut next_id = 1u64;
     for (wi, (w, rows)) in ws.into_iter().zip(c.writers.clone()).enumerate() {
         let h = hist.clone();
         let ids: Vec<u64> = rows.iter().map(|_| { let i = next_id; next_id += 1; i }).collect();
         let cont = c.continue_after_fail;
+        let dl = delivered.clone();
         threads.push(shuttle::thread::spawn(move || {
+            let mut mine: Vec<u64> = vec![];
             for (b, r) in ids.iter().zip(rows.iter()) {
                 let batch = make_batch(*b, *r);
                 push(&h, Ev::PushInvoke { w: wi, b: *b });
@@ -236,6 +251,9 @@ fn run(c: &Case) {
                 };
                 let ok = res.is_ok();
                 push(&h, Ev::PushRet { w: wi, b: *b, ok });
+                if ok && *r > 0 {
+                    mine.push(*b);
+                }
                 if !ok {
                     set_tag("after-failed-push");
                     probe("probe.push_failed");
@@ -244,12 +262,24 @@ fn run(c: &Case) {
                     }
                 }
             }
+            if hold {
+                // the sink stays alive: only the wake-ups of push_batch itself can make the reader
+                // deliver these batches; a lost one leaves both sides blocked (deadlock report)
+                let (m, cv) = &*dl;
+                let mut g = m.lock().unwrap();
+                while !g.1 && !mine.iter().all(|b| g.0.contains(b)) {
+                    g = cv.wait(g).unwrap();
+                }
+                drop(g);
+                probe("probe.writer_held_until_delivery");
+            }
             push(&h, Ev::WriterDrop { w: wi });
             drop(w);
         }));
     }
     let hr = hist.clone();
     let limit = c.reader_limit;
+    let dl = delivered.clone();
     let reader_task = shuttle::future::spawn(async move {
         let mut reader = reader;
         let mut got = 0u64;
@@ -273,7 +303,10 @@ fn run(c: &Case) {
                             if make_batch(b, rows) != batch {
                                 violation("corrupt-batch", format!("batch {b} read back with different contents"));
                             }
-                            push(&hr, Ev::Read { b })
+                            push(&hr, Ev::Read { b });
+                            let (m, cv) = &*dl;
+                            m.lock().unwrap().0.insert(b);
+                            cv.notify_all();
                         }
                         None => violation("empty-batch-delivered", "reader produced an empty batch".into()),
                     }
@@ -289,6 +322,11 @@ fn run(c: &Case) {
             }
         }
         push(&hr, Ev::ReaderDrop);
+        {
+            let (m, cv) = &*dl;
+            m.lock().unwrap().1 = true;
+            cv.notify_all();
+        }
         drop(reader);
     });
     for t in threads {
@@ -407,7 +445,7 @@ pub fn check() -> Check {
         scenarios: vec![Box::new(SpillChannel { faults: false }), Box::new(SpillChannel { faults: true })],
         cases_quick: 10_000,
         cases_thorough: 200_000,
-        rule: "cases: seeded workloads (spsc or mpsc with 1-3 writers via clone/new_sink, 0-4 batches each incl. empty ones, rotation after every/k/no batches, reader draining or dropped after k, SimDisk read chunking 1B..all and injected Pending), 40% of them with one scripted disk fault (k-th write/flush/finish/create, torn or not, sticky or not, position spread over the whole run); each case explored under seeded random and PCT shuttle schedules with scheduling points at every pool/file/disk lock. distinct = distinct (case, recorded schedule); non-trivial = some decision had >= 2 runnable tasks",
+        rule: "cases: seeded workloads (spsc or mpsc with 1-3 writers via clone/new_sink, 0-4 batches each incl. empty ones, rotation after every/k/no batches, reader draining or dropped after k, in half of the fault-free cases every writer keeps its sink alive until the reader has delivered that writer's batches (wake-up on data, not only on the last drop), SimDisk read chunking 1B..all and injected Pending), 40% of them with one scripted disk fault (k-th write/flush/finish/create, torn or not, sticky or not, position spread over the whole run); each case explored under seeded random and PCT shuttle schedules with scheduling points at every pool/file/disk lock. distinct = distinct (case, recorded schedule); non-trivial = some decision had >= 2 runnable tasks",
         assumptions: vec![
             "the disk is SimDisk (in-memory, behind TempFileFactory/SpillFile/SpillWriter); it mirrors the default backend's read-until-EOF-then-end semantics",
             "shuttle executes atomics and locks sequentially consistently",
